@@ -6,8 +6,7 @@ PROP = {
         "GunYu.Props.C17.update_position_before",
         "GunYu.Props.C17.migrate_prefix_safe",
         "GunYu.Props.C17.gc_prefix_safe",
-        "GunYu.Props.C17.gc_spares_newest_of_live_id",
-        "GunYu.Props.C17.gc_passes_exceptNewest",
+        "GunYu.Props.C17.gc_spares_live_id",
         "GunYu.Props.C17.gc_newest_is_largest",
         "GunYu.Props.C17.consts_match_source",
     ],
@@ -40,7 +39,14 @@ PROP = {
             "Every write request of an operation is a crash point: vfdoubles.Replay of the request prefix, then the REAL GetCheckpointHash + "
             "GetCheckpoint. Requests (DB, key, fields, values) and the position after every prefix vs Lean (updateReqs / gcReqs / migrateReqs). "
             "Monitors on the real code: position after any prefix not smaller and in the same DB (on states meeting the stated preconditions, "
-            "counted per reason in input_distribution pre_*); gc never deletes in the DB holding the unique largest offset of a live id. "
+            "counted per reason in input_distribution pre_*; a rename cut after its first HSET is monitored as class rename-cut); the REAL next start "
+            "after every update prefix (id ordering of syncer.updateCheckpoint + UpdateCheckpoint re-run to completion + GetCheckpoint under the LOCAL key); "
+            "after every prefix of a format switch the real resolve re-run + real RedisOutput.StartPoint (bisyncStartPoint) must not resume before the old "
+            "namespace's start; gc never deletes in the DB holding the unique largest offset of a live id; entries WITHOUT _mtime (what the replay path "
+            "writes) and mtime 0 are generated in 1/3 of the DBs incl. the newest. "
+            "c17gs (gc while the sender runs): the real sendAof under virtual time replays a stream visiting several source DBs, the real gc runs between two "
+            "batches, the stream returns to a DB visited before; after EVERY request prefix a fresh RedisOutput.StartPoint must still read the session's run id "
+            "and a not smaller offset. "
             "distinct_nontrivial = distinct (operation, precondition class, #requests, #hashes, DB of the position)",
     "trusted": ["target double harness/overlay/pkg/vfdoubles/target.go (per-DB keyspace, HSET keeps field order / HDEL removes the key when empty, INFO keyspace lists non-empty DBs, SELECT per connection)",
                 "Go map iteration over INFO keyspace = any order (parameter of the model; the order the real code used is read from the request log)"],
@@ -48,9 +54,15 @@ PROP = {
         "replication ids are 40 hex characters (equal length, no '_'): fetchCheckpoint's HasPrefix/Contains field match is modelled as equality of the parsed (run id, suffix) - the harness generates ids of that shape",
         "preconditions of the safety theorems (checked by the monitor before it judges a case): under the key the hash resolves to, one DB holds the STRICTLY largest offset X >= 0 of the two ids (C02 after the D5 repair: the position written after a SELECT is larger than the one left in the previous DB; with EQUAL offsets in two DBs gc can move the position to the other DB - example in Props/C17.lean), every numeric field of the ids parses, `_runid` fields store their own id, a new key name holds no field of the ids, an orphaned new-id record left by an interrupted re-key is a copy of the old id's record beside it; gc: both ids are reported by a source and one of them alone reads X in that DB",
         "recovery-format switch: the namespace root checkpoint lives in DB 0 (setCheckpoint / seedBisyncNamespace write it there)",
-        "single maintenance process at a time (no concurrent UpdateCheckpoint / gc on the same target)",
+        "one maintenance operation at a time on a target; gc DOES run concurrently with a replaying sender in production: covered sequentially by c17gs (gc between two batches), not as true interleaving inside one request",
+        "foreign DEL / FLUSHDB of a database holding a checkpoint is outside the property (remark: writing <id>_runid/<id>_version with every checkpoint HSET in sendCmdsBatch would make the sender robust against it; not done, sender core unchanged)",
+        "a format switch the code REFUSES (no authoritative seed: root checkpoint only - pinned by the repo test TestResolveBisyncCheckpointNameRejectsPlainCheckpointFallback -, or a journal gap) issues no request and leaves the target as it was; the start keeps failing until the configured mode is reverted - counted as migrate_refused, not a loss of position",
     ],
-    "partial": [],
+    "partial": [
+        "update_rerun_reads_local_stmt (Props/C17.lean, a `def … : Prop`, not proved): after a cut at any prefix the REAL next start runs UpdateCheckpoint again to completion and reads under the LOCAL key; proved: the read through the checkpoint hash at every prefix (update_prefix_safe) and that the crash states of a rename are admissible initial states (LocOk); not proved: that every crash state re-establishes all of UpdPre. The harness monitors exactly this on every crash point (restart-after-update-loses-position, next_start_checked)",
+        "migrate_prefix_safe bounds the ROOT checkpoint of the namespace in DB 0 (X <= X'); the position a bidirectional start really uses (root overridden by latest record / rebuilt frontier) is not in the theorem - it is monitored on every crash point with the real resolveBisyncCheckpointNameWithClient re-run + the real RedisOutput.StartPoint (migrate-next-start-regresses, migrate_next_start_checked); only requests on the checkpoint hash and the two root keys are crash points",
+        "gc_spares_newest_of_live_id / gc_passes_exceptNewest are lemmas that restate the definition (kept for the audit, not required); the property's second sentence is gc_spares_live_id (whole gc pass, ANY live id)",
+    ],
 }
 
 MANIFEST = {
@@ -60,7 +72,7 @@ MANIFEST = {
             "DelStaleCheckpoint with exceptNewest never deletes in the database holding the id's largest offset, for every clock position. "
             "Tied to the code by differential correspondence of the real functions against the target double with every request prefix replayed and "
             "the real start-point read, plus independent monitors; literal field/key names regenerated from the source. "
-            "Two defects found and fixed (D13: re-keyed position written into an arbitrary database; D22: format switch dropped a newer root checkpoint).",
+            "Three defects found and fixed (D13: re-keyed position written into an arbitrary database; D22: format switch dropped a newer root checkpoint; D24: gc deleted the run id fields a running sender relies on).",
     "note": "trusted: Lean kernel (propext, Classical.choice, Quot.sound only), target double, extractor, harness; cmd/syncer.go gcStaleCp closure compared textually with the transliteration",
     "technique": "Lean 4 proof (position predicate preserved request by request, fold invariants over arbitrary DB orders) + differential correspondence over every request prefix (crash points)",
 }
